@@ -14,6 +14,7 @@ PROGRAMS = {
     "file": {"root": "fmain", "edit": ["fmain", "summ"], "file": True},
     "file-kw": {"root": "fmain_kw", "edit": ["fmain_kw", "summ"], "file": True},
     "versioned": {"root": "vtop", "edit": ["vtop"], "bump": ["vleaf"], "arg": True},
+    "script": {"root": "stop", "edit": ["stop", "sh", "leaf"], "arg": True, "opts": {"sh": {"script": True}}},
     "shallow": {"root": "top", "edit": ["top", "mid", "leaf"], "arg": True, "opts": {"top": {"check_valid": "shallow"}}},
 }
 
